@@ -147,6 +147,30 @@ Theorem c16_gone_pool_stays_unpaused : forall st e st' k, rstep st e = Some st' 
 Proof. exact gone_frozen. Qed.
 Print Assumptions c16_gone_pool_stays_unpaused.
 
+(** After ANY reload history — shared replacements, removals, a removed pool added again with a
+    fresh flag and [Notify] ([ReloadFresh] after [ReloadRemove]), sessions that re-resolved their
+    pool or not — a client that needs a checkout while the REGISTERED pool is paused is held (old
+    sessions included: the session looks its pool up right before it waits), for as long as no
+    RESUME, removal or replacement of that pool happens. *)
+Theorem c16_pause_holds_after_reloads : forall l0 s0 c l st,
+  rrun rinit l0 = Some s0 -> gone s0 = false -> paused (cells s0 (registered s0)) = true ->
+  rrun s0 (Base (CReg c) :: l) = Some st -> Forall (quiet c) l ->
+  held_by_pause c st /\ pcs (cells st (holds st c)) c <> Passed.
+Proof. exact pause_holds_after_reloads. Qed.
+Print Assumptions c16_pause_holds_after_reloads.
+
+(** The lookup before the wait is what makes it true: with the session waiting on the pool object
+    it resolved earlier ([rrun_gen false], the code before commit "a session whose user was removed
+    and re-added by reloads is held by PAUSE again") the same statement fails on the F36 schedule:
+    remove, re-add, PAUSE, and the old session's statement is past the gate. *)
+Theorem c16_stale_pool_lookup_refuted : exists s0 st,
+  rrun_gen false rinit f36_history = Some s0 /\ gone s0 = false /\ paused (cells s0 (registered s0)) = true /\
+  rrun_gen false s0 (Base (CReg 0) :: f36_rest) = Some st /\ Forall (quiet 0) f36_rest /\
+  pcs (cells st (holds st 0)) 0 = Passed /\ paused (cells st (registered st)) = true /\
+  holds st 0 <> registered st.
+Proof. exact stale_lookup_refuted. Qed.
+Print Assumptions c16_stale_pool_lookup_refuted.
+
 (** The code before the repair (fresh flag and [Notify] for a replaced pool): PAUSE, a client is
     held, RELOAD, RESUME completes on the registered pool — the client still sleeps on the old
     cell, whose generation no step can change any more.  (Finding C16-RELOAD-WHILE-PAUSED, fixed.) *)
@@ -252,4 +276,14 @@ Example ex_reload_remove_releases :
   | Some st => (view 1 (cells st (holds st 0)), gone st, rstep st (Base APause), rstep st (Base AStore))
                = ((false, false, [VPassed]), true, None, None)
   | None => False end.
+Proof. vm_compute. reflexivity. Qed.
+
+(** F36 on the current code: the old session is held by the PAUSE of the re-added pool and
+    released by its RESUME; a session whose pool is gone cannot even start to wait. *)
+Example ex_f36_now_held :
+  (rtrace_codes 1 (f36_history ++ [Base (CReg 0); Base (CLoad 0); Base (CDecide 0); Base AStore; Base ANotify; Base (CWake 0)]))
+  = [[2; 0; 0]; [0; 0; 0]; [1; 0; 0]; [1; 0; 1]; [1; 0; 3]; [1; 0; 4]; [0; 1; 4]; [0; 0; 5]; [0; 0; 5]].
+Proof. vm_compute. reflexivity. Qed.
+
+Example ex_gone_pool_lookup_fails : rtrace_codes 1 [Base APause; ReloadRemove; Base (CReg 0)] = [[1; 0; 0]; [2; 0; 0]; []].
 Proof. vm_compute. reflexivity. Qed.
